@@ -26,7 +26,7 @@ def run(cmd, cwd=scr):
     return p.returncode, p.stdout + p.stderr
 meta = {'seed': sid, 'property': prop, 'ran': []}
 DF = os.environ.get('DEMO_FLAGS', '')
-rc0, out0 = run(f'cargo test --offline {DF} --test demo 2>&1 | grep -E "^test result|error" | head -3')
+rc0, out0 = run(f'cargo test --offline {DF} --test demo 2>&1 | grep -E "^test result|^error(\\[|:)" | head -3')
 meta['demo_without_change'] = out0.strip()
 rc, out = run(f'git init -q . 2>/dev/null; git apply --unsafe-paths {dst}/patch.diff 2>&1 || patch -p1 < {dst}/patch.diff')
 if 'error' in out.lower() and 'patch' not in out.lower():
